@@ -698,9 +698,16 @@ class Engine:
         bits = []
         for k in range(16):
             bits.append(z3.Or(((a.e / (1 << k)) % 2) == 0, ((b.e / (1 << k)) % 2) == 0))
-        self.side_condition(z3.And(a.e >= 0, b.e >= 0, a.e < (1 << 16), b.e < (1 << 16), *bits),
-                            "operands of | have disjoint bits")
-        return _mk(a.e + b.e)
+        small = z3.And(a.e >= 0, b.e >= 0, a.e < (1 << 16), b.e < (1 << 16))
+        if self._check(z3.Not(z3.And(small, *bits))) == "unsat":
+            return _mk(a.e + b.e)
+        # the bits are not provably disjoint: exact bit-by-bit OR, for operands provably below 2^16
+        self.side_condition(small, "operands of | are non-negative and below 2^16")
+        acc = z3.IntVal(0)
+        for k in range(16):
+            ak, bk = (a.e / (1 << k)) % 2, (b.e / (1 << k)) % 2
+            acc = acc + z3.If(z3.Or(ak == 1, bk == 1), 1 << k, 0)
+        return _mk(acc)
 
     def fresh_id(self):
         self._ids += 1
